@@ -34,6 +34,13 @@ type Part struct {
 	// (a panic in a goroutine the library spawned, a runtime fatal error) is
 	// reported as a violation with that vector instead of an engine error.
 	CrashIsolate bool
+	// Race: the part is the free-running complement of the controlled parts. Its
+	// workers are the -race build of the same binary (VERIF_RACE_EXE) running
+	// with VS_FREE=1: the harness bodies execute on real goroutines with the
+	// library's real synchronisation, outcomes are not judged, and every data
+	// race the detector reports between two accesses made by the library is a
+	// violation (signature race:<function>~<function>).
+	Race bool
 }
 
 // Prop is a registered property check.
@@ -114,6 +121,22 @@ func Main() {
 			usage()
 		}
 		os.Exit(replay(os.Args[2]))
+	case "hasrace":
+		// exit 0 iff the property has a free-running -race part in this tier
+		if len(os.Args) >= 4 {
+			if p := registry[strings.ToLower(os.Args[2])]; p != nil {
+				tier := os.Args[3]
+				if tier != "thorough" {
+					tier = "quick"
+				}
+				for _, pt := range p.Parts(tier) {
+					if pt.Race {
+						os.Exit(0)
+					}
+				}
+			}
+		}
+		os.Exit(1)
 	case "list":
 		var ids []string
 		for id := range registry {
@@ -185,7 +208,30 @@ func worker(id, tier, part string, i, n int, outdir string) int {
 			}
 		}
 	}
+	if pt.Race {
+		body := pt.Body
+		pt.Body = func(c *nd.Ctx) (res nd.Result) {
+			defer func() {
+				if e := recover(); e != nil {
+					if _, ok := e.(nd.NondetError); ok {
+						panic(e)
+					}
+					res = nd.Result{Outcome: "free-run:harness-panic"}
+				}
+			}()
+			r := body(c)
+			if r.Skip {
+				return r
+			}
+			return nd.Result{Outcome: "free-run"}
+		}
+	}
 	st := nd.Explore(pt.Body, opt)
+	if pt.Race {
+		// schedules are the runtime's here: a choice point that moved is not an error
+		st.NondetErr = ""
+		st.Found = map[string]*nd.Found{}
+	}
 	// confirm violations by replay
 	for sig, f := range st.Found {
 		if err := nd.Confirm(pt.Body, f, pt.MaxDev, 5); err != nil {
@@ -246,6 +292,10 @@ func check(id, tier string) int {
 	broken := ""
 	lostWorker := "" // a worker hung or died: an engine problem unless the others found a violation
 	for _, pt := range p.Parts(tier) {
+		if pt.Race && os.Getenv("VERIF_RACE_EXE") == "" {
+			fmt.Fprintln(os.Stderr, "ENGINE ERROR: part", pt.Name, "needs the -race build of the harness (VERIF_RACE_EXE)")
+			return 2
+		}
 		if only := os.Getenv("VERIF_PARTS"); only != "" && !strings.Contains(","+only+",", ","+pt.Name+",") {
 			continue // debugging aid: run selected parts only (evidence then covers only those)
 		}
@@ -265,9 +315,16 @@ func check(id, tier string) int {
 			wg.Add(1)
 			go func(i int) {
 				defer wg.Done()
-				cmd := exec.Command(exe, "worker", id, tier, pt.Name, strconv.Itoa(i), strconv.Itoa(n), scratch)
+				wexe := exe
+				if pt.Race {
+					wexe = os.Getenv("VERIF_RACE_EXE")
+				}
+				cmd := exec.Command(wexe, "worker", id, tier, pt.Name, strconv.Itoa(i), strconv.Itoa(n), scratch)
 				cmd.Env = append(os.Environ(), "VERIF_DEADLINE="+strconv.FormatInt(deadline.UnixNano(), 10))
 				cmd.Env = append(cmd.Env, pt.Env...)
+				if pt.Race {
+					cmd.Env = append(cmd.Env, "VS_FREE=1", "GORACE=halt_on_error=0 exitcode=0 history_size=3 log_path="+filepath.Join(scratch, fmt.Sprintf("%s-%d.race", pt.Name, i)))
+				}
 				var stderr bytes.Buffer
 				cmd.Stderr = &stderr
 				cmd.Stdout = &stderr
@@ -336,6 +393,13 @@ func check(id, tier string) int {
 				broken = "part " + pt.Name + ": " + st.NondetErr
 			}
 			ps.Merge(st)
+		}
+		if pt.Race {
+			nrep, races := collectRaces(scratch, pt.Name)
+			ps.Outcomes["race-reports-seen"] = int64(nrep)
+			for sig, f := range races {
+				ps.Found[sig] = f
+			}
 		}
 		for sig := range ps.Found {
 			if _, ok := foundPart[sig]; !ok {
@@ -515,6 +579,16 @@ func replay(file string) int {
 		fmt.Fprintln(os.Stderr, "unknown part", r.Part)
 		return 2
 	}
+	if pt.Race {
+		var m struct {
+			Signature string `json:"signature"`
+			Message   string `json:"message"`
+		}
+		json.Unmarshal(b, &m)
+		fmt.Printf("data race reported by the race detector in a free-running execution of part %s (re-run the check to reproduce):\n%s\n", r.Part, m.Message)
+		fmt.Printf("VIOLATION property=%s replay=%s\n  signature: %s\n", strings.ToUpper(r.Property), file, m.Signature)
+		return 1
+	}
 	res, notes, _, err := nd.Replay(pt.Body, r.Vector, r.MaxDev)
 	if err != nil {
 		fmt.Fprintln(os.Stderr, err)
@@ -570,4 +644,106 @@ func crashFound(pt Part, base, stderr string) *nd.Found {
 		}
 	}
 	return &nd.Found{Violation: nd.Violation{Sig: "crash:" + kind + "@" + frame, Msg: "worker process crashed inside the library: " + first + "\n" + tail(stderr, 3000)}, Vector: vec, Count: 1}
+}
+
+// collectRaces reads the race detector's log files of a Race part and returns
+// the number of reports seen and, per signature, the reports in which both
+// racing accesses were made by the library under test (the innermost frame of
+// each access stack that belongs to either the library or the harness is the
+// library's). Races the harness itself takes part in (its bookkeeping is
+// written for the cooperative scheduler) say nothing about the library.
+func collectRaces(dir, part string) (int, map[string]*nd.Found) {
+	files, _ := filepath.Glob(filepath.Join(dir, part+"-*.race.*"))
+	sort.Strings(files)
+	out := map[string]*nd.Found{}
+	total := 0
+	for _, f := range files {
+		b, err := os.ReadFile(f)
+		if err != nil {
+			continue
+		}
+		for _, rep := range strings.Split(string(b), "==================") {
+			if !strings.Contains(rep, "WARNING: DATA RACE") {
+				continue
+			}
+			total++
+			owners := raceOwners(rep)
+			if len(owners) < 2 {
+				continue
+			}
+			lib := true
+			for _, o := range owners[:2] {
+				if !strings.HasPrefix(o, "mellium.im/xmpp") {
+					lib = false
+				}
+			}
+			if !lib {
+				if os.Getenv("VERIF_RACE_DEBUG") != "" {
+					fmt.Fprintf(os.Stderr, "race ignored (harness takes part): %s ~ %s\n", owners[0], owners[1])
+				}
+				continue
+			}
+			pair := []string{owners[0], owners[1]}
+			sort.Strings(pair)
+			sig := "race:" + pair[0] + "~" + pair[1]
+			if e := out[sig]; e != nil {
+				e.Count++
+				continue
+			}
+			out[sig] = &nd.Found{Violation: nd.Violation{Sig: sig, Msg: "data race between two accesses of the library (free-running execution, race detector report):\n" + strings.TrimSpace(rep)}, Count: 1}
+		}
+	}
+	return total, out
+}
+
+// raceOwners returns, for each access stack of a race report (the sections
+// that start with "Read at", "Write at", "Previous read at", "Previous write
+// at"), the function of the innermost frame that belongs to the library or the
+// harness.
+func raceOwners(rep string) []string {
+	var owners []string
+	lines := strings.Split(rep, "\n")
+	for i := 0; i < len(lines); i++ {
+		l := strings.TrimSpace(lines[i])
+		if !(strings.HasPrefix(l, "Read at") || strings.HasPrefix(l, "Write at") || strings.HasPrefix(l, "Previous read at") || strings.HasPrefix(l, "Previous write at") ||
+			strings.HasPrefix(l, "Atomic read at") || strings.HasPrefix(l, "Atomic write at") || strings.HasPrefix(l, "Previous atomic")) {
+			continue
+		}
+		owner := ""
+		for j := i + 1; j < len(lines); j++ {
+			fl := strings.TrimSpace(lines[j])
+			if fl == "" {
+				break
+			}
+			if strings.HasPrefix(fl, "/") || strings.HasPrefix(fl, "<") {
+				continue // file:line of the frame above
+			}
+			fn := fl
+			if k := strings.LastIndex(fn, "("); k > 0 {
+				fn = fn[:k]
+			}
+			if strings.HasPrefix(fn, "mellium.im/xmpp") || strings.HasPrefix(fn, "verif/") || strings.HasPrefix(fn, "main.") {
+				owner = fn
+				break
+			}
+		}
+		owners = append(owners, owner)
+	}
+	return owners
+}
+
+// RacePart builds the free-running -race complement of a property's
+// controlled parts: the same harness bodies, each of their harness-level
+// choice vectors executed `repeat` times on real goroutines.
+func RacePart(repeat, maxDev int, budget time.Duration, bodies ...nd.Body) Part {
+	return Part{
+		Name: "race",
+		Desc: fmt.Sprintf("free-running complement: the harness bodies of the controlled parts executed on real goroutines by a -race build (%d bodies, every harness-level choice vector %d times); reports data races between two library accesses, judges nothing else", len(bodies), repeat),
+		Body: func(c *nd.Ctx) nd.Result {
+			c.Choose(repeat, "repetition")
+			b := bodies[c.Choose(len(bodies), "body")]
+			return b(c)
+		},
+		MaxDev: maxDev, Workers: 8, CutDepth: 3, Budget: budget, Race: true, Env: []string{"GOMAXPROCS=4"},
+	}
 }
